@@ -1,6 +1,6 @@
 //! Small-scope document generators for the DIMACS family.
 
-use mc_core::generic::{dedup_docs, single_edit_neighbours, token_sequences, Doc, MARKERS};
+use mc_core::generic::{byte_sweep, dedup_docs, single_edit_neighbours, token_sequences, Doc, MARKERS};
 use mc_core::Tier;
 
 pub fn corpus(kind: &str) -> Vec<Doc> {
@@ -90,6 +90,14 @@ pub fn inputs_seq(kind: &str, tier: Tier, seq_len: usize) -> Inputs {
             continue;
         }
         nb.extend(single_edit_neighbours(d, &MARKERS));
+    }
+    // every byte value at every position of the short corpus documents
+    for d in &corpus {
+        let base = d.name.rsplit(':').next().unwrap_or("");
+        let quick_base = matches!(base, "std" | "assignment-first" | "and" | "tiny");
+        if (tier == Tier::Quick && quick_base) || (tier == Tier::Thorough && (8..=60).contains(&d.bytes.len())) {
+            nb.extend(byte_sweep(d));
+        }
     }
     let sequences = dedup_docs(token_sequences(&tokens(kind), seq_len));
     // all short strings over a 10-symbol alphabet (arbitrary inputs)
